@@ -7,6 +7,9 @@ from gen import c18 as G
 
 
 def oracle(case, line):
+    if line.startswith("ERR:hang") or (line.startswith("CRASH") and "TIMEOUT" in line):
+        return [("hang", "implementation hangs under this schedule: a thread is blocked outside the scheduler's control (real futex / "
+                         "lock wait that no controlled thread can end): " + line[:160])]
     if line.startswith(("CRASH", "ERR:", "BADCASE", "MISSING", "MODEL-")):
         return [("crash", "harness/implementation crashed: " + line[:200])]
     bad = []
@@ -57,12 +60,55 @@ def oracle(case, line):
     return bad
 
 
+def dw_oracle(case, line):
+    """DownloadWrapper side (harness/c18dw.cc): after hash_stop() / close() returned, every piece that was pending on the
+    hashing thread has been cancelled CLEANLY: no HashQueue node of the download is left and no ChunkList node keeps a
+    reference / blocking mark (nothing would ever release it: the disk thread is done with the download)."""
+    if line.startswith(("CRASH", "ERR:", "BADCASE", "MISSING")):
+        kl = "hang" if ("ERR:hang" in line or "TIMEOUT" in line) else "crash"
+        return [(kl, "c18dw harness/implementation crashed or hung: " + line[:200])]
+    bad = []
+    body, _, tail = line.partition(" | ")
+    for tok in body.split():
+        m = re.match(r"([a-z]\d*):(-?\d+)/(\d+)/(\d+)/(\d+)$", tok)
+        if not m:
+            if tok.startswith("!"):
+                bad.append(("internal-error", "internal_error during hash_check / hash_stop / close: " + body[-120:]))
+            continue
+        op, refs, blocking, nodes = m.group(1), int(m.group(3)), int(m.group(4)), int(m.group(5))
+        if op[0] in "sx" and (refs or blocking or nodes):
+            bad.append(("cancelled-piece-not-released",
+                        "after %s returned %d chunk reference(s) / %d blocking mark(s) / %d hash-queue node(s) of the download remain: "
+                        "a piece cancelled while pending on the hashing thread was not released"
+                        % ("hash_stop()" if op[0] == "s" else "close()", refs, blocking, nodes)))
+    if " E 1" in tail and not bad:
+        bad.append(("internal-error", "internal_error during hash_check / hash_stop / close"))
+    return bad[:1]
+
+
+def run_impl(impl, cases, rep, pilot=64, chunk=4000):
+    """Implementation outputs for [cases]. The first [pilot] cases (corpus + hand cases come first) are run on their own, then
+    the bulk in chunks: once the implementation HANGS (harness watchdog, result 'ERR:hang ...') on a pilot case or on three
+    cases of one chunk, every further hanging case would cost a full watchdog period, so the remaining cases are not run - the
+    hangs are reported with their schedules and the rest is marked SKIPPED (neither compared nor counted as violations)."""
+    out = ltv.run_sharded(impl, cases[:pilot])
+    stop = any(o.startswith("ERR:hang") for o in out)
+    while not stop and len(out) < len(cases):
+        part = ltv.run_sharded(impl, cases[len(out):len(out) + chunk])
+        out += part
+        stop = sum(1 for o in part if o.startswith("ERR:hang")) >= 3 or not part
+    if len(out) < len(cases):
+        rep.cov.update(stopped_after_hang=True, skipped_after_hang=len(cases) - len(out))
+        out += ["SKIPPED"] * (len(cases) - len(out))
+    return out
+
+
 def run(rep, tier, seed, replay):
     coq = ltv.coq_build("C18")
     rep.cov.update(obligations=coq["obligations"], discharged=coq["discharged"], checker_cmd=coq["checker_cmd"],
                    theorems=coq["theorems"], axioms_per_theorem=coq["axioms"],
                    trusted_base=ltv.std_trusted_base(coq, [
-                       "sequentially consistent atomics; atomic<bool>::wait(false) modelled as 'enabled iff flag is true'",
+                       "sequentially consistent atomics; atomic<bool>::wait(false) modelled as 'enabled iff flag is true' (the model has no notify count); in the harness a controlled thread that really blocks in atomic<bool>::wait is parked as not-enabled through the interposed futex calls (harness/common/futex_interpose.h) and woken only by a real notify, so an implementation that sleeps where the model proceeds shows up as a deadlock, not as a process hang",
                        "deterministic scheduler harness/common/sched.h ('m:' points are enabled only when the mutex is free) and the schedule points of hooks/c18.patch + committed C17 points",
                        "the cross-thread posts are reduced to C17's id-less post (cbn_lock / cb_interrupt) and process_callbacks to pc_store / pc_lock",
                        "std::map<HashChunk*> iteration order (by address) is not modelled: which done chunk a work() pop delivers is not compared per step, only per-chunk outcomes",
@@ -72,6 +118,7 @@ def run(rep, tier, seed, replay):
     exhaustive = []
     if replay:
         cases = [json.load(open(replay))["case"]]
+        cases = [c for c in cases if "/" in c]    # a line without '/' is a DownloadWrapper-side case (c18dw, below)
         stats = {"replay": 1}
     else:
         cases, stats, enum = G.gen(seed, tier)
@@ -84,12 +131,14 @@ def run(rep, tier, seed, replay):
             nex += len(f) - 1
         stats["exhaustive_cases"] = nex
     mo = ltv.run_sharded(model, cases)
-    io = ltv.run_sharded(impl, cases)
+    io = run_impl(impl, cases, rep)
     nontrivial, mism, samples = set(), 0, []
     concrete, noise = [], []
     for i, case in enumerate(cases):
         m = mo[i] if i < len(mo) else "MISSING"
         o = io[i] if i < len(io) else "MISSING"
+        if o == "SKIPPED":
+            continue
         oc = o.partition(" # ")[0]
         if ":G" in oc or ":X" in oc:
             nontrivial.add(hashlib.sha1(oc.encode()).digest())
@@ -114,6 +163,16 @@ def run(rep, tier, seed, replay):
         else:
             for kl, text in viol:
                 concrete.append((text, dict(case=case, model=m, impl=o, theorem="property oracle C18", klass=kl)))
+    # DownloadWrapper side: real Download, hash_stop / close with pieces pending (no model: oracle only)
+    # (a DownloadWrapper case line contains no '/')
+    rcase = json.load(open(replay))["case"] if replay else None
+    if not replay or "/" not in rcase:
+        dw = ltv.build_harness("c18dw", ["c18dw.cc", "common/session.cc"], libs=["-lcrypto"])
+        dcases = [rcase] if replay else list(G.DW_CASES)
+        for case, o in zip(dcases, ltv.run_sharded(dw, dcases, shards=4)):
+            for kl, text in dw_oracle(case, o):
+                concrete.append((text, dict(case=case, impl=o, theorem="property oracle C18 (DownloadWrapper side)", klass=kl)))
+        rep.cov.update(download_wrapper_cases=len(dcases))
     # concrete failing inputs first, one per class first, so that correspondence noise never crowds them out
     seen_k = set()
     ordered = [x for x in concrete if not (x[1]["klass"] in seen_k or seen_k.add(x[1]["klass"]))]
